@@ -57,7 +57,7 @@ def construct(ctx, fb, T, R):
     ctx.floor(R, 'TensorBase construction sites', len(aggs), 50)
     outside = [a for a in aggs if a[0].crate.name != 'rten_tensor']
     ctx.inst(R, 'only-in-rten-tensor', not outside, 'TensorBase { data, layout } is built only inside rten-tensor (fields are private): %s' % [a[0].path for a in outside][:3], '')
-    fresh_ok = {e['fn']: e['reason'] for e in T.get('fresh_reviewed', [])}
+    fresh_ok = RevTable({e['fn']: e['reason'] for e in T.get('fresh_reviewed', [])})
     for (f, bb, s, rv) in sorted(aggs, key=lambda a: a[0].path):
         d, l = rv[4][0], rv[4][1]
         dp, dc = names(f, d)
@@ -105,7 +105,7 @@ def construct(ctx, fb, T, R):
             why = 'unrecognised provenance: data via %s, layout via %s, guards %s' % (sorted(dc), sorted(lc), sorted(gn)[:4])
         ctx.inst(R, 'site:%s' % short, cls is not None, ('%s: %s' % (cls, why)) if cls else ('TensorBase constructed without establishing the length invariant - ' + why), f.loc(s[3]))
     # callers of the unchecked constructor
-    allowed = {e['fn']: e['reason'] for e in T.get('unchecked_callers', [])}
+    allowed = RevTable({e['fn']: e['reason'] for e in T.get('unchecked_callers', [])})
     for (f, c) in callers_of(fb, 're:TensorBase::<S, L>::from_storage_and_layout_unchecked$'):
         ctx.inst(R, 'unchecked-caller:' + f.path.replace('rten_tensor::', ''), f.path in allowed, ('reviewed: ' + allowed[f.path]) if f.path in allowed else 'from_storage_and_layout_unchecked called from an unreviewed function', c.loc())
 
@@ -155,7 +155,7 @@ def _index_like(fb, g, o):
 
 def unsafe_inventory(ctx, fb, T):
     R = 'C06.unsafe-inventory'
-    rev = {(e['fn_short'], e['callee']): e['reason'] for e in T.get('unsafe_reviewed', [])}
+    rev = RevTable({(e['fn_short'], e['callee']): e['reason'] for e in T.get('unsafe_reviewed', [])})
     OFFSET_SRC = ('re:Iterator>::next$', 're:Iterator::next$', 're:::next_back$', 're:::nth$', 're:Layout>?::offset$', 're:LayoutExt::must_offset$', 're:::must_offset$', 're:::offset_unchecked$',
                   're:::offset$', 're:Option::<T>::(unwrap|expect)$', 're:Try>::branch$')
     n = 0
@@ -253,7 +253,7 @@ def unchecked_offset(ctx, fb, T):
     """who-may-call Layout::offset_unchecked (a *safe* function that skips the index check): every caller is an unsafe fn
     (the obligation is its caller's), a forwarding offset_unchecked impl, guarded by a positive index_valid() test, or reviewed"""
     R = 'C06.unchecked-offset'
-    rev = {e['fn']: e['reason'] for e in T.get('offset_unchecked_callers', [])}
+    rev = RevTable({e['fn']: e['reason'] for e in T.get('offset_unchecked_callers', [])})
     n = 0
     cnt = {}
     for cr in ('rten_tensor', 'rten', 'rten_gemm', 'rten_imageproc', 'rten_vecmath', 'rten_text', 'rten_generate', 'rten_serialize'):
